@@ -266,6 +266,8 @@ EXT_SIGS = {
     "numpy.median": (("a", "axis", "out", "overwrite_input", "keepdims"),
                      {"axis": None, "out": None, "overwrite_input": False, "keepdims": False}),
     "numpy.sum": (("a", "axis", "dtype", "out", "keepdims"), {"axis": None, "dtype": None, "out": None}),
+    "numpy.dot": (("a", "b", "out"), {"out": None}),
+    "numpy.matmul": (("x1", "x2"), {}),
     "numpy.abs": (("x",), {}),
     "numpy.square": (("x",), {}),
     "numpy.sqrt": (("x",), {}),
